@@ -260,9 +260,15 @@ fn frame_from_stderr(tail: &str) -> String {
 }
 
 fn death_result(seed: u64, prop: &str, kind: &str, entry: &str, frame: &str, detail: String) -> RunResult {
-    // asset-buffer scenarios are classified per format and kind (see props/assets.rs)
+    // asset-buffer scenarios are classified per format, kind and source file (see props/assets.rs)
     let sig = match entry.strip_prefix("asset:") {
-        Some(format) => format!("{}|asset|{}|{}", prop, format, kind.split('|').next().unwrap_or(kind)),
+        Some(format) => {
+            let k = kind.split('|').next().unwrap_or(kind);
+            match frame.split(':').next().filter(|f| f.starts_with("src/") && f.ends_with(".rs")) {
+                Some(file) => format!("{}|asset|{}|{}|{}", prop, format, k, file),
+                None => format!("{}|asset|{}|{}", prop, format, k),
+            }
+        }
         None => format!("{}|{}|{}", prop, kind, frame),
     };
     RunResult {
